@@ -1,4 +1,6 @@
-//! x86-64, one installation driven at the `injector_core` level (PatchAmd64), cooperative kernel.
+//! x86-64, one installation driven at the `injector_core` level (PatchAmd64).  The trampoline
+//! address comes from the allocator's contract stub (any free page within the variant's range);
+//! the real retry loop together with the real entry branch is checked in x64_alloc.rs (C11).
 //! Obligations: C01 (reach the fake), C13 (transparency), C17 (flushed), C03 (model), C02/C12 (drop).
 use crate::injector_core::common::*;
 use crate::injector_core::patch_amd64::*;
@@ -32,6 +34,7 @@ unsafe fn setup() -> (u64, [u8; sim::RLEN]) {
 #[kani::stub(std::ptr::copy_nonoverlapping, shim_copy)]
 #[kani::stub(crate::injector_core::linuxapi::__clear_cache, shim_clear_cache)]
 #[kani::stub(<*mut u8>::add, shim_add)]
+#[kani::stub(crate::injector_core::common::allocate_jit_memory, shim_allocate_jit_memory)]
 fn x64_core_redirect() {
     unsafe {
         let (f, orig) = setup();
@@ -93,6 +96,7 @@ fn x64_core_redirect() {
 #[kani::stub(std::ptr::copy_nonoverlapping, shim_copy)]
 #[kani::stub(crate::injector_core::linuxapi::__clear_cache, shim_clear_cache)]
 #[kani::stub(<*mut u8>::add, shim_add)]
+#[kani::stub(crate::injector_core::common::allocate_jit_memory, shim_allocate_jit_memory)]
 fn x64_core_boolean() {
     unsafe {
         let (f, orig) = setup();
